@@ -137,14 +137,14 @@ def validation_and_orientation(F, S):
     # GetScanLineOrientation: negative height <=> TopDown
     go = F.fn(B + "::GetScanLineOrientation", nparams=0)
     r = returns(go)
-    t = go.term(r[0]["value"]) if len(r) == 1 else None
+    t = go.result_term()
     en = F.enums.get("OP2Utility::ScanLineOrientation")
     td = [e["value"] for e in en["enumerators"] if e["name"] == "TopDown"][0]
     bu = [e["value"] for e in en["enumerators"] if e["name"] == "BottomUp"][0]
     want = ("cond", ("op", "<", ("mem", ("mem", ("this",), "imageHeader"), "height"), ("const", 0)), ("const", td), ("const", bu))
     inst = B + "::GetScanLineOrientation#sign"
     if t == want:
-        out.append(ok("R-SIB", inst, go.loc(r[0]["id"]), go.qn, "negative height means top-down, otherwise bottom-up", fmt_term(t)))
+        out.append(ok("R-SIB", inst, go.loc(go.body), go.qn, "negative height means top-down, otherwise bottom-up", fmt_term(t)))
     else:
         out.append(bad("R-SIB", inst, go.loc(go.body), go.qn, "negative height means top-down, otherwise bottom-up", "returns %s" % (fmt_term(t) if t else "?")))
     # reader: the bitmap is created with a negated height (top-down) and validated before it is returned
